@@ -9,12 +9,14 @@
   such a function changes the AST and breaks the proof obligation.
 
   Values     int | bool | str | None | enum member | list (tuples and lists are identified) | record
-             | dict (association list: `k in d`, `d[k]`, `d.get(k, default)`, `len(d)`, iteration over keys)
+             | dict (association list: `k in d`, `d[k]`, `d.get(k, default)`, `len(d)`, iteration over keys,
+               `d[k] = v`, the literal `{}`)
   Expr       literals, variables, attribute access (= field lookup), `+ - * // %` (ints; `+` also
              concatenates lists), unary minus, comparisons (`== != < <= > >= is is not in not in`),
              `and / or / not` with Python's operand-returning semantics and truthiness,
              conditional expressions, tuple/list literals, indexing (negative indices as in Python),
-             builtins (`len int bool min max abs range list tuple`, `reduce(mul, it, init)`),
+             builtins (`len int bool min max abs range list tuple`, `reduce(mul, it, init)`, `xs.index(v)`,
+             `zip(xs, ys)`, `d.items()`),
              `any(c for x in it)`, `all(c for x in it)`, `[e for x in it if c]`,
              and calls of EXTERNAL functions, whose meaning is a parameter `X` of the interpreter
              (supplied — and thereby documented — by the theorem that uses it).
@@ -132,6 +134,12 @@ inductive Builtin where
   | remove
   /-- `d.get(k, default)` -/
   | dictGet
+  /-- `xs.index(v)`: position of the first element `== v` (`ValueError` if there is none) -/
+  | index
+  /-- `zip(xs, ys)` of two lists, consumed at once: the list of pairs, as long as the shorter one -/
+  | zip
+  /-- `d.items()`, consumed at once: the list of (key, value) pairs in insertion order -/
+  | items
 deriving Repr, DecidableEq
 
 inductive Expr where
@@ -283,6 +291,25 @@ def removeFirst (v : Val) : List Val → Res (Option (List Val))
     | some false => (removeFirst v xs).map fun o => o.map fun r => x :: r
     | Option.none => .stuck
 
+/-- `xs.index(v)`: `none` = `v` is not in the list -/
+def indexFirst (v : Val) : List Val → Res (Option Nat)
+  | [] => .ok Option.none
+  | x :: xs =>
+    match Val.eqv x v with
+    | some true => .ok (some 0)
+    | some false => (indexFirst v xs).map fun o => o.map fun i => i + 1
+    | Option.none => .stuck
+
+/-- `d[k] = v`: the value of the entry whose key is `== k` is replaced (the entry keeps its place), a new key is
+    appended -/
+def dictSet (k v : Val) : List (Val × Val) → Res (List (Val × Val))
+  | [] => .ok [(k, v)]
+  | (k', v') :: r =>
+    match Val.eqv k k' with
+    | some true => .ok ((k', v) :: r)
+    | some false => (dictSet k v r).map fun r' => (k', v') :: r'
+    | Option.none => .stuck
+
 def builtin (f : Builtin) (args : List Val) : Res Val :=
   match f, args with
   | .len, [.list xs] => .ok (.int xs.length)
@@ -303,6 +330,14 @@ def builtin (f : Builtin) (args : List Val) : Res Val :=
     | .ok Option.none => .ok dflt
     | .raise e => .raise e
     | .stuck => .stuck
+  | .index, [.list xs, v] =>
+    match indexFirst v xs with
+    | .ok (some i) => .ok (.int (i : Int))
+    | .ok Option.none => .raise "ValueError"
+    | .raise e => .raise e
+    | .stuck => .stuck
+  | .zip, [.list xs, .list ys] => .ok (.list (List.zipWith (fun a b => Val.list [a, b]) xs ys))
+  | .items, [.dict kvs] => .ok (.list (kvs.map fun kv => Val.list [kv.1, kv.2]))
   | .int, [v] => match v.asInt with | some a => .ok (.int a) | Option.none => .stuck
   | .bool, [v] => v.truthy.map .bool
   | .abs, [.int a] => .ok (.int a.natAbs)
@@ -423,6 +458,7 @@ def exec (X : Ext) : Stmt → St → Flow
     withVal (eval X (.var x) st.env) fun l => withVal (eval X i st.env) fun k => withVal (eval X e st.env) fun v =>
       match l with
       | .list xs => withVal (listSet xs k v) fun l' => .next (st.set x l')
+      | .dict kvs => withVal ((dictSet k v kvs).map .dict) fun d => .next (st.set x d)
       | _ => .stuck
   | .ite c t e, st =>
     withBool ((eval X c st.env).bind Val.truthy) fun b => if b then execBlock X t st else execBlock X e st
